@@ -1,8 +1,9 @@
 \* exhaustive: 6 records (3 prefixes x 2 sources), 2 tables, every operation order
-SPECIFICATION Spec
+SPECIFICATION SpecX
 CONSTANTS
   Rec <- MCRec
   Srcs <- MCSrcs
   NT = 2
+  D = 0
 INVARIANTS MirrorOK TypeOK
 PROPERTIES DiffIsNet ReloadAtomic
